@@ -305,3 +305,45 @@ func R12OwnerEndpoints(c *Ctx) {
 		c.R.Bad(rule, FuncShort(cc), construct, c.pos(cc.Pos()), "nothing on the close path removes the t.Listeners entry and the /:endpoint route that ListenerServiceExc2Add registered for this connection (the service.Teamserver interface has no removal method): they stay advertised and routed after the service is gone")
 	}
 }
+
+// R12EndpointKey — an external listener's route is registered and removed under the same key.
+func R12EndpointKey(c *Ctx) {
+	const rule = "R12-endpoint-key"
+	c.R.Rule(rule, "the key stored in a registered Endpoint (Endpoint.Endpoint) and the key handed to EndpointRemove are both the listener's ExternalConfig.Endpoint: an external listener's route is removed under the name it was registered with", 3)
+	isExtEndpoint := func(v ssa.Value) bool {
+		ld, ok := v.(*ssa.UnOp)
+		if !ok || ld.Op != token.MUL {
+			return false
+		}
+		t, f, _, ok := FieldOf(ld.X)
+		return ok && t == PkgHandlers+".ExternalConfig" && f == "Endpoint"
+	}
+	for _, fn := range c.P.ModuleFuncs(NonYaotl) {
+		for _, b := range fn.Blocks {
+			for _, in := range b.Instrs {
+				switch x := in.(type) {
+				case *ssa.Store:
+					t, f, _, ok := FieldOf(x.Addr)
+					if !ok || t != PkgServer+".Endpoint" || f != "Endpoint" {
+						continue
+					}
+					if isExtEndpoint(x.Val) {
+						c.R.Ok(rule, FuncShort(fn), "Endpoint.Endpoint = ExternalConfig.Endpoint", c.pos(x.Pos()), "registered under the configured endpoint", true)
+					} else {
+						c.R.Bad(rule, FuncShort(fn), "Endpoint.Endpoint = ExternalConfig.Endpoint", c.pos(x.Pos()), "the route is registered under "+DescribeValue(x.Val)+", not the listener's configured endpoint")
+					}
+				case ssa.CallInstruction:
+					if CalleeName(x) != "(*Havoc/cmd/server.Teamserver).EndpointRemove" {
+						continue
+					}
+					args := CallArgs(x)
+					if len(args) == 1 && isExtEndpoint(args[0]) {
+						c.R.Ok(rule, FuncShort(fn), "EndpointRemove(ExternalConfig.Endpoint)", c.pos(x.Pos()), "removed under the key it was registered with", true)
+					} else {
+						c.R.Bad(rule, FuncShort(fn), "EndpointRemove(ExternalConfig.Endpoint)", c.pos(x.Pos()), "the route is removed by a different key than the configured endpoint it was registered under: the endpoint keeps routing to the removed listener (or another listener's endpoint is dropped)")
+					}
+				}
+			}
+		}
+	}
+}
